@@ -196,6 +196,13 @@ func checker(a map[string]any) boltz.FieldChecker {
 	}
 	m := boltz.MapFieldChecker{}
 	for _, f := range fs {
+		// a field checker names stored keys
+		switch f {
+		case "nick":
+			f = schema.KNick
+		case "boss":
+			f = schema.KBoss
+		}
 		m[f] = struct{}{}
 	}
 	return m
@@ -744,7 +751,7 @@ func (r *Runner) residue(at int, tx *bbolt.Tx, before map[string]any, s *Step) {
 		// a value equal to the id is residue only where ids are stored: name/nick/grade values live in ent/*/name.. and in the unique indexes
 		occ := root.Occurrences(real, func(path []string) bool {
 			last := path[len(path)-1]
-			if last == "name" || last == "nick" || last == "grade" {
+			if last == "name" || last == "nick" || last == schema.KNick || last == "grade" {
 				return true
 			}
 			if len(path) >= 4 && path[1] == "indexes" && (path[3] == "name" || path[3] == "nick" || path[3] == "grade") {
